@@ -214,7 +214,7 @@ def seq_groups(nb, tier="quick"):
         harness=harness("router_seq_step", nb, "nondet_size_t(), "),
         entry="h_router_seq_step", enforce="router_seq_step", replace=["grid_neighbors", "fsl_slope_abs"],
         unwindset={("router_seq_step", 0): nb + 1}, defines=defines(nb),
-        backend="sat", timeout=600, min_obligations=50, tier=tier,
+        backend="sat", timeout=600, min_obligations=50, tier=tier, replay="replay/routing.cpp",
         clause="C04 at one node (terminal => own receiver, distance 0; own receiver <=> no strictly lower unmasked neighbour; otherwise an "
                "unmasked strictly lower neighbour of maximal computed slope with its grid distance), frame: only the node's own receiver "
                "cells and one new donor slot change; sequential router, <= %d neighbours" % nb)
@@ -222,7 +222,7 @@ def seq_groups(nb, tier="quick"):
         name="router.seq.loop.nb%d" % nb, units=[is_masked, is_base_level, step, outer],
         harness=harness("router_seq", nb),
         entry="h_router_seq", enforce="router_seq", replace=["router_seq_step"], loop_contracts=True,
-        defines=defines(nb), backend="sat", timeout=600, min_obligations=50, tier=tier,
+        defines=defines(nb), backend="sat", timeout=600, min_obligations=50, tier=tier, replay="replay/routing.cpp",
         clause="whole sequential sweep (any number of nodes): C04 holds at every node; donor rows sound, duplicate-free and complete "
                "(exact inverse of the receiver table for non-terminal nodes, C06); <= %d neighbours" % nb)
     return [g1, g2]
@@ -244,3 +244,264 @@ PROPS = {
         ],
     ),
 }
+
+
+# ====================================================================== parallel router (C10, C04, C06)
+# The lambda given to the thread pool: `[&...](std::size_t, std::size_t start, std::size_t end) { ... }`.
+PAR_ANCHOR = r"void apply_par\(graph_impl_type& graph_impl,\s*data_array_type& elevation,\s*thread_pool_type& pool\)"
+PAR_SCAN_RULES = [r for r in SCAN_RULES]
+
+
+def make_par_step(nb):
+    return Unit(
+        name="router_par_step", file=ROUTER_H, anchor=PAR_ANCHOR,
+        inner=r"for \(auto i = start; i < end; \+\+i\)\s*\{",
+        sig="void router_par_step(size_t i, %s)" % PARAMS,
+        pre=common_pre(nb), defs=DEFS,
+        body_prefix="/* locals of the lambda, dead at the loop head */\ndouble slope, slope_max; struct neighbor neighbors[FSL_NBMAX]; size_t neighbors_n;\n",
+        rules=PAR_SCAN_RULES,
+        contract=step_contract(nb, False),
+    )
+
+
+def make_par_block(nb):
+    """the lambda body: a block [start, end) of the node range"""
+    return Unit(
+        name="router_par_block", file=ROUTER_H, anchor=PAR_ANCHOR,
+        inner=r"\]\(std::size_t\s*, std::size_t start, std::size_t end\)\s*\{",
+        sig="void router_par_block(size_t start, size_t end, %s)" % PARAMS,
+        defs=DEFS,
+        rules=[R(r"double slope, slope_max;\s*neighbors_type neighbors;", "/* locals moved into the outlined loop body */", 1),
+               R(r"for \(auto i = start; i < end; \+\+i\)", "for (size_t i = start; i < end; ++i)", 1),
+               RB(r"for \(size_t i = start; i < end; \+\+i\)", "{ router_par_step(i, %s); }" % ARGS)],
+        contract=FRESH + ghost_requires(nb) + r"""
+__CPROVER_requires(start <= end && end <= gsize)
+/* C10 write frame of one block: only the receiver cells of its own index range; in particular no donor table,
+ * no elevation, mask or base-level cell, and no cell of another block */
+__CPROVER_assigns(__CPROVER_object_whole(m_receivers), __CPROVER_object_whole(m_receivers_distance))
+__CPROVER_ensures((start <= G && G < end) ==> %(ROUTED)s)
+__CPROVER_ensures(!(start <= G && G < end) ==> (REC(G) == __CPROVER_old(REC(G)) && SAME_D(DIST(G), __CPROVER_old(DIST(G)))))
+""" % dict(ROUTED=routed(nb)),
+        loops={0: r"""
+__CPROVER_assigns(i, __CPROVER_object_whole(m_receivers), __CPROVER_object_whole(m_receivers_distance))
+__CPROVER_loop_invariant(start <= i && i <= end)
+__CPROVER_loop_invariant((start <= G && G < i) ==> %(ROUTED)s)
+__CPROVER_loop_invariant(!(start <= G && G < i) ==> (REC(G) == __CPROVER_loop_entry(REC(G)) && SAME_D(DIST(G), __CPROVER_loop_entry(DIST(G)))))
+__CPROVER_decreases(end - i)
+""" % dict(ROUTED=routed(nb))},
+    )
+
+
+def make_par_donors(nb):
+    """the sequential donor rebuild after the pool has finished (apply_par, last loop)"""
+    DON_W = nb + 1
+    sound = SOUND
+    return Unit(
+        name="router_par_donors", file=ROUTER_H, anchor=PAR_ANCHOR,
+        inner=r"pool\.pause\(\);\s*for \(auto i : grid\.nodes_indices\(\)\)\s*\{",
+        sig="void router_par_donors_step(size_t i, %s)" % PARAMS,
+        pre=PRED if False else "", defs=DEFS,
+        rules=DONOR_RULES,
+        contract=FRESH + r"""
+__CPROVER_requires(i < gsize && GR < gsize && GS < DON_W && REC(i) < gsize)
+__CPROVER_assigns(__CPROVER_object_whole(m_donors), __CPROVER_object_whole(m_donors_count))
+__CPROVER_ensures(CNT(GR) == __CPROVER_old(CNT(GR)) + ((REC(i) == GR) ? 1 : 0))
+__CPROVER_ensures(%s)
+__CPROVER_ensures((REC(i) == GR) ==> (__CPROVER_old(CNT(GR)) < DON_W && DON(GR, __CPROVER_old(CNT(GR))) == i))
+""" % conj("%k < __CPROVER_old(CNT(GR)) ==> DON(GR, %k) == __CPROVER_old(DON(GR, %k))", DON_W),
+    )
+
+
+def agree_harness(nb):
+    init = "".join("    GN[%d].idx = nondet_size_t(); GN[%d].distance = nondet_double(); GE[%d] = nondet_double(); GQ[%d] = nondet_double();\n" % (k, k, k, k)
+                   for k in range(nb))
+    return r"""
+size_t nondet_size_t(void); _Bool nondet_bool(void); double nondet_double(void);
+/* C10 seq/par agreement at one node: both extracted loop bodies run on the same node and inputs (same neighbour list,
+ * same quotient table) and must produce the same receiver and distance -- including the tie-break, whatever it is. */
+void h_agree(void)
+{
+    size_t m_receivers[1], m_donors[DON_W], m_donors_count[1]; double m_receivers_distance[1];
+    size_t p_receivers[1]; double p_receivers_distance[1];
+    _Bool m_mask[1], base_level[1]; uint8_t nodes_status[1]; double elevation[1];
+    __CPROVER_assert(0, "unused");
+}
+"""
+
+
+def par_groups(nb, tier="quick"):
+    step = make_par_step(nb)
+    block = make_par_block(nb)
+    g1 = Group(
+        name="router.par.step.nb%d" % nb, units=[is_masked, is_base_level, step],
+        harness=harness("router_par_step", nb, "nondet_size_t(), "),
+        entry="h_router_par_step", enforce="router_par_step", replace=["grid_neighbors", "fsl_slope_abs"],
+        unwindset={("router_par_step", 0): nb + 1}, defines=defines(nb),
+        backend="sat", timeout=600, min_obligations=50, tier=tier, replay="replay/routing.cpp",
+        clause="C04 at one node for the multi-threaded router's loop body; write frame = the node's own receiver and distance cell only "
+               "(no donor table, no shared scratch); <= %d neighbours" % nb)
+    g2 = Group(
+        name="router.par.block.nb%d" % nb, units=[is_masked, is_base_level, step, block],
+        harness=harness("router_par_block", nb, "nondet_size_t(), nondet_size_t(), "),
+        entry="h_router_par_block", enforce="router_par_block", replace=["router_par_step"], loop_contracts=True,
+        defines=defines(nb), backend="sat", timeout=600, min_obligations=50, tier=tier, replay="replay/routing.cpp",
+        clause="C10 block frame: a worker's block [start,end) establishes C04 on its own nodes and leaves every receiver cell outside "
+               "the block, the donor table, the elevation, mask and base levels untouched (disjoint write frames, shared reads only); "
+               "<= %d neighbours" % nb)
+    return [g1, g2]
+
+
+_PAR = par_groups(2)
+GROUPS["C04"] = GROUPS["C04"] + _PAR
+GROUPS["C10"] = _PAR
+PROPS["C10"] = dict(
+    level="other",
+    explanation="Schedules are not enumerable by contracts. Decided here: the data-race-freedom premises for the multi-threaded router -- "
+                "each block's write frame is its own slice of the receiver tables, all other accesses are reads of memory no block writes, "
+                "each node's result is a function of those reads (same contract as the sequential step).",
+    unmechanised=["DRF lemma: blocks with pairwise disjoint write frames that read only memory no block writes and compute functions of their "
+                  "inputs give the sequential result under every interleaving, provided the pool synchronises dispatch and completion"],
+    undecided=["the interleavings themselves, pause/resume/resize sequences, the pool's synchronisation (C11 undecided clauses)",
+               "kernel application (apply_kernel_par): user std::function callbacks are outside the extraction",
+               "cache-less grids (every triangular mesh, rasters with neighbors_no_cache): grid.neighbors() writes ONE buffer shared by all "
+               "threads; the neighbour contract used here models the cached grid (callee frame = the caller's local buffer)"],
+    assumptions=["neighbour lookup frame: grid.neighbors(i, buf) assigns only buf and the cache row of node i (cached grids)"],
+)
+
+
+# ====================================================================== apply_par (whole) and apply (prologue + dispatch)
+FILL_MODEL = r"""
+/* xtensor `a.fill(v)` / column view fill: element-wise (assumed xtensor semantics); contract speaks about the ghost cells */
+void fsl_fill_sz(size_t *a, size_t n, size_t v)
+__CPROVER_requires(n <= ((size_t) 1 << 40))
+__CPROVER_assigns(__CPROVER_object_whole(a))
+__CPROVER_ensures((GR < n ==> a[GR] == v) && (G < n ==> a[G] == v))
+;
+void fsl_fill_col0_d(double *a, size_t n, double v)
+__CPROVER_requires(n <= ((size_t) 1 << 40))
+__CPROVER_assigns(__CPROVER_object_whole(a))
+__CPROVER_ensures(G < n ==> a[G * REC_W] == v)
+;
+"""
+
+POOL_MODEL = r"""
+/* Sequential model of thread_pool::run_blocks (justified by C11's partition lemmas + the DRF lemma of C10):
+ * the callback is executed once on each block of SOME partition of [first, last) into contiguous non-empty blocks. */
+size_t nondet_size_t(void);
+#define FSL_RUN_BLOCKS(first, last, CALL)                                   \
+    do {                                                                    \
+        size_t blk_s = (first);                                             \
+        while (blk_s < (last))                                              \
+        __CPROVER_assigns(blk_s, __CPROVER_object_whole(m_receivers), __CPROVER_object_whole(m_receivers_distance)) \
+        __CPROVER_loop_invariant((first) <= blk_s && blk_s <= (last))       \
+        __CPROVER_loop_invariant(((first) <= G && G < blk_s) ==> ROUTED_G)  \
+        __CPROVER_decreases((last) - blk_s)                                 \
+        {                                                                   \
+            size_t blk_e = nondet_size_t();                                 \
+            __CPROVER_assume(blk_s < blk_e && blk_e <= (last));             \
+            CALL(blk_s, blk_e);                                             \
+            blk_s = blk_e;                                                  \
+        }                                                                   \
+    } while (0)
+"""
+
+
+def make_par_whole(nb):
+    DON_W = nb + 1
+    return Unit(
+        name="router_par", file=ROUTER_H, anchor=PAR_ANCHOR,
+        sig="void router_par(size_t op_threads_count, %s)" % PARAMS,
+        pre="#define ROUTED_G %s\n" % routed(nb).replace("\n", " ") + POOL_MODEL +
+            "#define PAR_BLOCK_CALL(s, e) router_par_block((s), (e), %s)\n" % ARGS,
+        defs=DEFS,
+        rules=[R(r"auto& (\w+) = graph_impl\.(?:grid\(\)|m_\w+);", "", 5),
+               R(r"auto run\s*=\s*\[.*?\n                \};", "/* lambda `run`: extracted as router_par_block */", 1, __import__("re").S),
+               R(r"pool\.resume\(\);\s*pool\.resize\(static_cast<std::size_t>\(m_op_ptr->threads_count\(\)\)\);\s*pool\.run_blocks\(0, grid\.size\(\), run\);\s*pool\.pause\(\);",
+                 "FSL_RUN_BLOCKS(0, gsize, PAR_BLOCK_CALL);", 1),
+               R(r"for \(auto i : grid\.nodes_indices\(\)\)", "for (size_t i = 0; i < gsize; ++i)", 1),
+               RB(r"for \(size_t i = 0; i < gsize; \+\+i\)", "{ router_par_donors_step(i, %s); }" % ARGS),
+               V(r"\};\s*\Z", "}")],
+        contract=FRESH + ghost_requires(nb) + r"""
+__CPROVER_requires(CNT(GR) == 0)   /* zeroed by apply() */
+__CPROVER_assigns(__CPROVER_object_whole(m_receivers), __CPROVER_object_whole(m_receivers_distance),
+                  __CPROVER_object_whole(m_donors), __CPROVER_object_whole(m_donors_count))
+__CPROVER_ensures(%(ROUTED)s)
+__CPROVER_ensures(%(SOUND)s)
+__CPROVER_ensures(%(DISTINCT)s)
+__CPROVER_ensures(%(COMPLETE)s)
+""" % dict(ROUTED=routed(nb), SOUND=SOUND % "gsize", DISTINCT=DISTINCT, COMPLETE=complete("gsize", DON_W, False)),
+        loops={0: r"""
+__CPROVER_assigns(i, __CPROVER_object_whole(m_donors), __CPROVER_object_whole(m_donors_count))
+__CPROVER_loop_invariant(i <= gsize)
+__CPROVER_loop_invariant(%(SOUND_I)s)
+__CPROVER_loop_invariant(%(DISTINCT)s)
+__CPROVER_loop_invariant(%(COMPLETE)s)
+__CPROVER_decreases(gsize - i)
+""" % dict(SOUND_I="((GS < CNT(GR) && GS < DON_W) ==> (DON(GR, GS) < i && REC(DON(GR, GS)) == GR))", DISTINCT=DISTINCT,
+           COMPLETE=complete("i", DON_W, False))},
+    )
+
+
+APPLY_ANCHOR = (r"class flow_operator_impl<FG, single_flow_router, flow_graph_fixed_array_tag>.*?"
+                r"void apply\(graph_impl_type& graph_impl,\s*data_array_type& elevation,\s*thread_pool_type& pool\)")
+
+
+def make_apply(nb):
+    DON_W = nb + 1
+    return Unit(
+        name="router_apply", file=ROUTER_H, anchor=APPLY_ANCHOR,
+        sig="void router_apply(size_t op_threads_count, size_t *m_receivers_count, double *m_receivers_weight, %s)" % PARAMS,
+        pre=FILL_MODEL, defs=DEFS,
+        rules=[V(r"graph_impl\.m_receivers_count\.fill\(", "fsl_fill_sz(m_receivers_count, gsize, "),
+               V(r"graph_impl\.m_donors_count\.fill\(", "fsl_fill_sz(m_donors_count, gsize, "),
+               R(r"auto weights = xt::col\(graph_impl\.m_receivers_weight, 0\);\s*weights\.fill\(", "fsl_fill_col0_d(m_receivers_weight, gsize, ", 1),
+               V(r"m_op_ptr->threads_count\(\)", "op_threads_count"),
+               V(r"apply_par\(graph_impl, elevation, pool\)", "router_par(op_threads_count, %s)" % ARGS),
+               V(r"apply_seq\(graph_impl, elevation\)", "router_seq(%s)" % ARGS),
+               # traversal orders are separate functions under their own contracts (C06)
+               R(r"graph_impl\.compute_dfs_indices_bottomup\(\);\s*graph_impl\.compute_bfs_indices_bottomup\(\);", "", 1)],
+        contract=FRESH + ghost_requires(nb) + r"""
+__CPROVER_requires(__CPROVER_is_fresh(m_receivers_count, gsize * 8) && __CPROVER_is_fresh(m_receivers_weight, gsize * REC_BYTES))
+__CPROVER_assigns(__CPROVER_object_whole(m_receivers), __CPROVER_object_whole(m_receivers_distance), __CPROVER_object_whole(m_receivers_count),
+                  __CPROVER_object_whole(m_receivers_weight), __CPROVER_object_whole(m_donors), __CPROVER_object_whole(m_donors_count))
+/* C04: one receiver with partition weight one, chosen by steepest descent; C06: donor rows are the inverse of the receiver column */
+__CPROVER_ensures(m_receivers_count[G] == 1 && m_receivers_weight[G * REC_W] == 1.0)
+__CPROVER_ensures(%(ROUTED)s)
+__CPROVER_ensures(%(SOUND)s)
+__CPROVER_ensures(%(DISTINCT)s)
+__CPROVER_ensures(%(COMPLETE)s)
+""" % dict(ROUTED=routed(nb), SOUND=SOUND % "gsize", DISTINCT=DISTINCT, COMPLETE=complete("gsize", DON_W, True)),
+    )
+
+
+def apply_groups(nb, tier="quick"):
+    step, outer = make_seq_step(nb), make_seq_outer(nb)
+    pstep, pblock, pdon, pwhole = make_par_step(nb), make_par_block(nb), make_par_donors(nb), make_par_whole(nb)
+    app = make_apply(nb)
+    h_par = harness("router_par", nb, "nondet_size_t(), ")
+    h_app = harness("router_apply", nb, "nondet_size_t(), rc, rw, ").replace("const _Bool *m_mask, *base_level;", "size_t *rc; double *rw; const _Bool *m_mask, *base_level;")
+    g_don = Group(
+        name="router.par.donors_step.nb%d" % nb, units=[is_masked, is_base_level, pstep, pdon],
+        harness=harness("router_par_donors_step", nb, "nondet_size_t(), "), entry="h_router_par_donors_step",
+        enforce="router_par_donors_step", defines=defines(nb), backend="sat", timeout=600, min_obligations=20, tier=tier,
+        clause="donor rebuild after the parallel sweep, one node: appended to its receiver's row (self-receivers included), nothing else changes")
+    g_par = Group(
+        name="router.par.whole.nb%d" % nb, units=[is_masked, is_base_level, pstep, pblock, pdon, pwhole],
+        harness=h_par, entry="h_router_par", enforce="router_par", replace=["router_par_block", "router_par_donors_step"],
+        loop_contracts=True, defines=defines(nb), backend="sat", timeout=900, min_obligations=50, tier=tier, replay="replay/routing.cpp",
+        clause="apply_par as a whole under the sequential model of run_blocks (any partition into contiguous blocks): C04 at every node, "
+               "donor rows sound / duplicate-free / complete after the rebuild loop")
+    g_app = Group(
+        name="router.apply.nb%d" % nb, units=[is_masked, is_base_level, step, outer, pstep, pblock, pdon, pwhole, app],
+        harness=h_app, entry="h_router_apply", enforce="router_apply",
+        replace=["router_seq", "router_par", "fsl_fill_sz", "fsl_fill_col0_d"],
+        defines=defines(nb), backend="sat", timeout=600, min_obligations=30, tier=tier, replay="replay/routing.cpp",
+        clause="single_flow_router::apply: receivers_count = 1 and weight 1 everywhere, donors_count reset before EITHER sweep (the sweeps' "
+               "precondition), dispatch on the thread count; C04 + C06 donor inverse as postcondition for both paths")
+    return [g_don, g_par, g_app]
+
+
+_APP = apply_groups(2)
+GROUPS["C04"] = GROUPS["C04"] + _APP
+GROUPS["C06"] = [g for g in GROUPS["C04"] if ".loop." in g.name or ".whole." in g.name or ".apply." in g.name or "donors_step" in g.name]
+GROUPS["C10"] = GROUPS["C10"] + [_APP[1]]
